@@ -425,10 +425,42 @@ let lp_main guard path tablepath needpath =
    | None -> if Hashtbl.length need > 0 then Printf.printf "NEEDMISSING %d payload(s) had no classification\n" (Hashtbl.length need));
   Printf.printf "DONE %d\n" !ncases
 
+(* ------------------------------------------------------------------------------------------------ sender side of the stream face *)
+(* runner appsend <trace>: every packet the receiving face handed up must be one of the packets handed to Send,
+   byte-identical, each exactly once (multiset equality), and the stream must end cleanly *)
+let appsend_main path =
+  let ic = open_in path in
+  let ncases = ref 0 in
+  let id = ref "" and sent = ref [] and got = ref [] and nseg = ref 0 in
+  (try while true do
+    let line = input_line ic in
+    match split_ws line with
+    | ["SCASE"; i; _] -> id := i; sent := []; got := []; nseg := 0
+    | ["P"; k; h] -> sent := h :: !sent; if int_of_string k > 1 then incr nseg
+    | ["G"; h] -> got := h :: !got
+    | ["I"; res; _; _] ->
+        incr ncases;
+        let s = List.sort compare !sent and g = List.sort compare !got in
+        (* the received blocks also go through the verified framer model: the concatenation of what was handed up must frame back to itself *)
+        let ok_model = List.for_all (fun h -> h <> "readerr") !got &&
+          (let frames = List.rev_map bytes_of_hex !got in
+           let (_, fr) = app_frames (List.concat frames) in frames_eqb fr frames) in
+        if s <> g || res <> "eof" || not ok_model then begin
+          let missing = List.length (List.filter (fun x -> not (List.mem x g)) s) and extra = List.length (List.filter (fun x -> not (List.mem x s)) g) in
+          Printf.printf "ORACLE %s send-blocks-%s concurrent Send calls: %d packets sent, %d received (%d sent packets missing, %d received blocks that were never sent); stream ended with %s - a block was split or merged on the wire\n"
+            !id (if extra > 0 || missing > 0 then "split" else "end") (List.length s) (List.length g) missing extra res
+        end else
+          Printf.printf "CASEOK %s app-send-concurrent packets=%d multiseg=%d nontrivial=%d hash=%s\n" !id (List.length s) !nseg
+            (if List.length s >= 3 && !nseg >= 1 then 1 else 0) (Digest.to_hex (Digest.string (String.concat "|" s)))
+    | _ -> ()
+  done with End_of_file -> ());
+  Printf.printf "DONE %d\n" !ncases
+
 let () =
   match Array.to_list Sys.argv with
   | [_; "stream"; g; path] -> stream_main (g = "1") path
   | [_; "app"; path] -> stream_main ~app:true true path
+  | [_; "appsend"; path] -> appsend_main path
   | [_; "lp"; g; path; table] -> lp_main (g = "1") path table None
   | [_; "lp"; g; path; table; need] -> lp_main (g = "1") path table (Some need)
   | _ -> prerr_endline "usage: runner stream <guard 0|1> <trace>"; exit 2
